@@ -6,6 +6,10 @@
 
 #include "ephemeralnet/protocol/Message.hpp"
 
+// ASan's default 256 MB free-quarantine makes every allocation touch fresh pages (measured 3x slower here);
+// cases are short-lived, 16 MB still covers many whole cases.  ASAN_OPTIONS from the environment still apply on top.
+extern "C" const char* __asan_default_options() { return "quarantine_size_mb=16"; }
+
 namespace verif {
 using namespace msggen;
 namespace P = ephemeralnet::protocol;
